@@ -36,6 +36,10 @@ QUICK_ALPHA = list("&<>\"'#x;ampltgquo349 \n-~/%+") + ["\u00e9", "\u20ac", "\u04
 REDUCED_ALPHA = list("&<\"'#x;amp39 %") + ["\u00e9", "\u20ac", "\u0416", "\U0001F600", "\u00a0"]
 EXTRA_THOROUGH = ["\u0080", "\u2003", "\u00a5", "\t", "\\", "=", "\u2028", "\uffff"]
 FIELDS = ["h", "x", "u", "entity", "unescape", "trim"]
+MORE_DECODE = ["latin1", "cp1251", "shift_jis", "utf_16", "ascii"]
+CRAFTED = ["&amp;", "&amp;amp;", "&lt;x&gt;", "&#39;", "&#34;&#x22;", "&#x41;", "&euro;", "&nbsp", "&;", "&#;", "&#x;", "a&b;c",
+           "%41", "%", "+", "a+b c", "%2B+", "\U0001F600+%", "&\u20ac;", "\u00e9&eacute;", "&eacute", "&#233;\u00e9", "  &amp; \u00a0",
+           "<a href='x?a=1&b=2'>", "\"'\"'", "&&&", ";;&", "&#38;#38;", "&amp;lt;", "e\u0301", "\u212b", "\ufb01"]
 FINDING3 = "htmlentityreplace:replacement-is-repr-of-bytes"
 
 
@@ -163,6 +167,15 @@ def real_outputs(s, templates=None):
     o["dec"] = {"str": _obs(lambda: _str(filters.decode.utf8(s))),
                 "bytes": _obs(lambda: _str(filters.decode.utf8(s.encode("utf-8")))),
                 "obj": _obs(lambda: _str(filters.decode.utf8(Obj(s))))}
+    o["dec_more"] = {}
+    for enc in MORE_DECODE:
+        try:
+            b = s.encode(enc)
+            if b.decode(enc) != s:
+                continue
+        except UnicodeError:
+            continue                      # not encodable in enc: no such bytes object exists
+        o["dec_more"][enc] = _obs(lambda: _str(getattr(filters.decode, enc)(b)))
     o["enc"] = {cs: _obs(lambda: _bytes(s.encode(cs, "htmlentityreplace"))) for cs in CHARSETS}
     if templates is not None:
         t = {}
@@ -172,6 +185,8 @@ def real_outputs(s, templates=None):
                     "bytes": _obs(lambda: _str(templates["decode"].render_unicode(x=s.encode("utf-8")))),
                     "obj": _obs(lambda: _str(templates["decode"].render_unicode(x=Obj(s))))}
         t["enc"] = {cs: _obs(lambda: _bytes(templates["enc:" + cs].render(x=s))) for cs in CHARSETS}
+        k = 1 if len(s) < 3 else 1 + (len(s) + ord(s[0])) % (len(s) - 1)
+        t["enc2"] = {cs: _obs(lambda: _bytes(templates["enc2:" + cs].render(x=s[:k], y=s[k:]))) for cs in CHARSETS}
         o["tmpl"] = t
     return o
 
@@ -202,8 +217,13 @@ def make_templates():
     t = {"h": Template("${x | h}"), "x": Template("${x | x}"), "u": Template("${x | u}"),
          "entity": Template("${x | entity}"), "trim": Template("${x | trim}"),
          "decode": Template("${x | decode.utf8}", default_filters=[])}
+    from mako.lookup import TemplateLookup
     for cs in CHARSETS:
         t["enc:" + cs] = Template("${x}", output_encoding=cs, encoding_errors="htmlentityreplace")
+        # through TemplateLookup(output_encoding=, encoding_errors=), the output written in two chunks
+        lk = TemplateLookup(output_encoding=cs, encoding_errors="htmlentityreplace")
+        lk.put_string("t", "${x}${y}")
+        t["enc2:" + cs] = lk.get_template("t")
     return t
 
 
@@ -291,6 +311,9 @@ def compare(s, exp, real):
             one("template:decode(%s)" % k, exp["dec"][k], t["dec"][k])
         for cs in CHARSETS:
             one("htmlentityreplace/render", exp["enc"][cs], t["enc"][cs], cs)
+            one("htmlentityreplace/lookup-render-two-writes", exp["enc"][cs], t["enc2"][cs], cs)
+    for enc, r in real.get("dec_more", {}).items():
+        one("decode.%s(bytes)" % enc, exp["dec"]["bytes"], r)
     return bad
 
 
@@ -521,7 +544,8 @@ def record_cases(strings, tm):
         obs["dec"] = {k: obs_names(src["dec"][k]) for k in ("str", "bytes", "obj")}
         # (a charset that does not round-trip a character of the input -- shift_jis maps U+00A5 and
         # U+203E to ASCII bytes -- cannot be abstracted back from the bytes: not recorded for that input)
-        obs["enc"] = {cs: obs_names(src["enc"][cs], cs) for cs in CHARSETS if all(roundtrips(c, cs) for c in s)}
+        esrc = r["tmpl"]["enc2"] if i % 4 == 3 else src["enc"]       # every fourth: through a lookup, written in two chunks
+        obs["enc"] = {cs: obs_names(esrc[cs], cs) for cs in CHARSETS if all(roundtrips(c, cs) for c in s)}
         cases.append({"id": i + 1, "s": names_of(s), "obs": obs, "via": "template" if use_t else "direct"})
     return cases
 
@@ -650,7 +674,7 @@ def check(run):
         nrand = 800
         tm = make_templates()
         pool = char_pool(run.rng)
-        strings = [random_string(run.rng, QUICK_ALPHA, pool) for _ in range(nrand)]
+        strings = [random_string(run.rng, QUICK_ALPHA, pool) for _ in range(nrand)] + (CRAFTED if vround == 0 else [])
         cases = record_cases(strings, tm)
         good = [c for c in cases if all(c["obs"]["enc"].get(cs) == c["s"] for cs in CHARSETS)][:3]
         ncs = []
